@@ -52,7 +52,7 @@ func compare(res *lib.Result, outs []string, w *World, sc *Scenario, mode string
 		}
 		if model != impl {
 			cut := *sc
-			cut.Events = sc.Events[:i+1]
+			cut.Events = sc.Events[:min(i+1, len(sc.Events))]
 			res.Mismatch(lib.Mismatch{Sig: "exec-actions-differ(" + mode + ")", Input: map[string]any{"mode": mode, "scenario": cut, "line": w.Lines[nn+i]},
 				Model: model, Impl: impl})
 			return rules, false
@@ -63,6 +63,7 @@ func compare(res *lib.Result, outs []string, w *World, sc *Scenario, mode string
 
 // askCompare sends one history to the driver and compares.
 func askCompare(res *lib.Result, drv *lib.Driver, w *World, sc *Scenario, mode string) (map[string]int, bool) {
+	w.Seal()
 	outs, err := drv.AskAll(w.Lines)
 	if err != nil {
 		res.Note("driver: %v", err)
@@ -179,6 +180,7 @@ func main() {
 			flush := func(batch []item) {
 				var lines []string
 				for _, it := range batch {
+					it.w.Seal()
 					lines = append(lines, it.w.Lines...)
 				}
 				outs, err := d.AskAll(lines)
